@@ -587,3 +587,21 @@ func CurrentID() string {
 	}
 	return active.cur.ID
 }
+
+// Aborted reports whether the current controlled execution is being torn down (deadlock,
+// livelock, panic or simulated process death): effects must not be performed any more.
+func Aborted() bool { return active != nil && active.aborting }
+
+// Die simulates the death of the process at this instant: every thread is abandoned where it
+// is (no further operation of the code under test takes effect).
+func Die() {
+	s := active
+	if s == nil || s.aborting {
+		return
+	}
+	t := s.cur
+	s.res.Died = true
+	s.ctl <- evPanic
+	<-t.sem
+	panic(abortPanic{})
+}
